@@ -1,6 +1,6 @@
 (* Entry point of the extracted model for the correspondence check: one function from
    (function id, arguments) to the canonical observation string the Go harness records. *)
-From Wire Require Import Base.Bytes Model.Converters Model.Validators Model.GoV Model.Codec Model.DL Model.Message Model.Writer Model.Reader Spec.Faim Spec.Rules.
+From Wire Require Import Base.Bytes Model.Converters Model.Validators Model.GoV Model.Codec Model.DL Model.Message Model.Writer Model.Reader Model.Server Spec.Faim Spec.Rules.
 From WireGen Require Import Tags Verify.
 
 Definition str (s : string) : bytes := list_byte_of_string s.
@@ -257,13 +257,148 @@ Definition run_read (args : list bytes) : bytes :=
   | _ => bs "bad-args"
   end.
 
+
+(* ---- property oracles that the model evaluates as well (the others are decided on the implementation only) ---- *)
+Fixpoint list_eqb {A} (eqb : A -> A -> bool) (a b : list A) : bool :=
+  match a, b with
+  | [], [] => true
+  | x :: a', y :: b' => eqb x y && list_eqb eqb a' b'
+  | _, _ => false
+  end.
+Definition tagval_eqb (a b : tagval) : bool := bytes_eqb (tv_marker a) (tv_marker b) && list_eqb bytes_eqb (tv_elems a) (tv_elems b).
+Definition otag_eqb (a b : option tagval) : bool :=
+  match a, b with Some x, Some y => tagval_eqb x y | None, None => true | _, _ => false end.
+
+(* read an accepted tag text, rewrite it in both layouts, read again: same element values? *)
+Definition reread_tag (i : nat) (d : tagdesc) (kind t1 : bytes) : bytes :=
+  match parse_tag d t1 with
+  | POk p1 =>
+      match validate_alone i p1 with
+      | Accept =>
+          let once (variable : bool) : option bytes :=
+            match format_tag d variable p1 with
+            | None => Some (bs "differ:format-refused")
+            | Some f2 =>
+                match parse_tag d f2 with
+                | POk p2 => if list_eqb bytes_eqb (tv_elems p2) (tv_elems p1) then None else Some (bs "differ:" ++ kind)
+                | _ => Some (bs "differ:unreadable:" ++ kind)
+                end
+            end in
+          match once true with
+          | Some r => r
+          | None => match once false with Some r => r | None => bs "same" end
+          end
+      | _ => bs "not-accepted"
+      end
+  | _ => bs "not-accepted"
+  end.
+
+Definition reread_msg (t1 : bytes) : bytes :=
+  match read_model None None [t1] FEOF with
+  | ROk m1 =>
+      match write_model m1 false [x0a] with
+      | WOk t2 =>
+          match read_model None None [t2] FEOF with
+          | ROk m2 => if list_eqb otag_eqb (m_tags m1) (m_tags m2) then bs "same" else bs "differ:blank-padded-numeric"
+          | _ => bs "differ:unreadable-after-rewrite"
+          end
+      | _ => bs "differ:rewrite-refused"
+      end
+  | _ => bs "not-accepted"
+  end.
+
+Definition run_prop (name : bytes) (args : list bytes) : bytes :=
+  if bytes_eqb name (bs "text-reread") then
+    match args with
+    | [tn; _; kind; _; t1] =>
+        match find_tag tn with Some (i, d) => reread_tag i d kind t1 | None => bs "bad-args" end
+    | [_; _; t1] => reread_msg t1
+    | _ => bs "bad-args"
+    end
+  else bs "unmodelled".
+
+(* ---- HTTP histories ---- *)
+Definition optarg (a : bytes) : option bytes := if bytes_eqb a (bs "~") then None else Some a.
+
+Definition resolve (created : list bytes) (id : bytes) : bytes :=
+  match id with
+  | x24 :: ds => nth (nat_of_digits ds 0) created (bs "unknown")
+  | _ => id
+  end.
+
+(* message arguments up to the terminator ";" *)
+Fixpoint take_until_end (args : list bytes) (acc : list bytes) : list bytes * list bytes :=
+  match args with
+  | [] => (rev acc, [])
+  | a :: r => if bytes_eqb a (bs ";") then (rev acc, r) else take_until_end r (a :: acc)
+  end.
+
+Definition resp_str (r : resp) : bytes :=
+  match r with
+  | RCreated id => bs "201:" ++ id
+  | ROkFile id m => bs "200:" ++ id ++ x3a :: msg_str m
+  | ROkList ids => bs "200:" ++ nat_str (length ids) ++ x3a :: join_comma (sort_lines ids)
+  | ROkBody b => bs "200:" ++ hx b
+  | ROkPlain => bs "200"
+  | RBad => bs "400"
+  | RNotFound => bs "404"
+  end.
+
+Fixpoint run_http (fuel : nat) (args : list bytes) (st : Server.sstate) (acc : list bytes) : list bytes :=
+  match fuel with
+  | O => rev acc
+  | S f =>
+      let cr := ss_created st in
+      let go (o : option (op * list bytes)) :=
+        match o with
+        | None => rev (bs "bad-args" :: acc)
+        | Some (o, rest) => let '(st', r) := Server.step st o in run_http f rest st' (resp_str r :: acc)
+        end in
+      match args with
+      | [] => rev acc
+      | k :: rest =>
+          if bytes_eqb k (bs "ct") then
+            match rest with
+            | sk :: al :: body :: r => go (Some (OCreateText (optarg sk) (optarg al) body, r))
+            | _ => go None
+            end
+          else if bytes_eqb k (bs "cj") then
+            match rest with
+            | id :: r => let '(margs, r') := take_until_end r [] in
+                         match decode_msg margs with
+                         | Some m => go (Some (OCreateMsg (if bytes_eqb id (bs "~") then [] else id) m, r'))
+                         | None => go None
+                         end
+            | _ => go None
+            end
+          else if bytes_eqb k (bs "cx") then go (Some (OBadJSON, rest))
+          else if bytes_eqb k (bs "g") then match rest with id :: r => go (Some (OGet (resolve cr id), r)) | _ => go None end
+          else if bytes_eqb k (bs "l") then go (Some (OList, rest))
+          else if bytes_eqb k (bs "c") then
+            match rest with id :: fm :: nl :: r => go (Some (OContents (resolve cr id) (optarg fm) (optarg nl), r)) | _ => go None end
+          else if bytes_eqb k (bs "v") then match rest with id :: r => go (Some (OValidate (resolve cr id), r)) | _ => go None end
+          else if bytes_eqb k (bs "a") then
+            match rest with
+            | id :: r => let '(margs, r') := take_until_end r [] in
+                         match decode_msg margs with
+                         | Some m => go (Some (OAdd (resolve cr id) m, r'))
+                         | None => go None
+                         end
+            | _ => go None
+            end
+          else if bytes_eqb k (bs "d") then match rest with id :: r => go (Some (ODelete (resolve cr id), r)) | _ => go None end
+          else go None
+      end
+  end.
+
 Definition run (fn : bytes) (args : list bytes) : bytes :=
   let '(kind, name) := split_colon fn [] in
   if bytes_eqb kind (bs "validator") then res_err (run_validator (string_of_list_byte name) args)
   else if bytes_eqb kind (bs "tag") then run_tag name args
   else if bytes_eqb kind (bs "meta") then run_meta name args
+  else if bytes_eqb kind (bs "http") then join_bar (run_http (S (length args)) args Server.init [])
   else if bytes_eqb kind (bs "read") then run_read args
-  else if bytes_eqb kind (bs "prop") then bs "same"
+  else if bytes_eqb kind (bs "prop") then run_prop name args
   else if bytes_eqb kind (bs "msg") then
     (if bytes_eqb name (bs "write") then run_write args
      else if bytes_eqb name (bs "write-refusal-bytes") then bs "0"
@@ -350,6 +485,12 @@ Definition prop_owner (name : bytes) : list string :=
   else if bytes_eqb name (bs "chunk-agree") || bytes_eqb name (bs "separator-agree") || bytes_eqb name (bs "order-agree") then ["C09"%string]
   else if bytes_eqb name (bs "error-positions") then ["C15"%string]
   else if bytes_eqb name (bs "accepted-valid") then ["C04"%string]
+  else if bytes_eqb name (bs "write-fault") then ["C08"%string]
+  else if bytes_eqb name (bs "text-reread") then ["C02"%string]
+  else if bytes_eqb name (bs "http-status-documented") || bytes_eqb name (bs "http-error-body-json") then ["C17"%string]
+  else if bytes_eqb name (bs "http-log-isolation") then ["C18"%string]
+  else if bytes_eqb name (bs "http-stored-valid") then ["C17"%string]
+  else if bytes_eqb name (bs "http-linearizable") then ["C16"%string]
   else [].
 
 Definition oracle_read (pid : bytes) (args : list bytes) : option bytes :=
